@@ -96,10 +96,18 @@ def run_case(case):
         col = c
         if case.get("margin") is not None:
             col = colliders.Margin(c, float(case["margin"]))
+        from harness.impl.c03 import array_state, changed
+        state0 = array_state(c)
         box = np.asarray(traced(col.aabb), dtype=float)
         if box.shape != (3, 2):
             raise AssertionError(f"aabb() shape {box.shape}")
         out["aabb"] = [fl(box[:, 0]), fl(box[:, 1])]
+        box_again = np.asarray(col.aabb(), dtype=float)
+        out["modified"] = []
+        if changed(state0, c):
+            out["modified"].append(f"aabb() modified the collider's arrays {changed(state0, c)}")
+        if not np.array_equal(box, box_again, equal_nan=True):
+            out["modified"].append(f"a second aabb() call returns {box_again.tolist()} instead of {box.tolist()}")
         fr = traced(free_aabb, sh)
         if fr is not None:
             out["free"] = [fl(fr[0]), fl(fr[1])]
